@@ -1,6 +1,7 @@
 //! vf-db: collection-level checks (C01-C06).
 mod c01;
 mod c02;
+mod c03;
 mod hist;
 mod world;
 
@@ -13,6 +14,16 @@ fn main() {
         "C01" => {
             let mut r = Runner::from_env("C01", "fault_enumeration");
             c01::run(&mut r);
+            r.finish();
+        }
+        "C03" => {
+            let mut r = Runner::from_env("C03", "exploration");
+            c03::run(&mut r);
+            r.finish();
+        }
+        "C04" => {
+            let mut r = Runner::from_env("C04", "exploration");
+            c02::run_c04_sequential(&mut r);
             r.finish();
         }
         "C02" => {
